@@ -1028,3 +1028,170 @@ Proof.
   rewrite BY, BX by lia. unfold roi_shape2, block_region. cbn [fst snd].
   repeat f_equal; lia.
 Qed.
+
+(** * clip_tiles *)
+Lemma fold_min_spec l : forall a,
+  let m := fold_left Z.min l a in m <= a /\ Forall (fun x => m <= x) l /\ In m (a :: l).
+Proof.
+  induction l as [|x l IH]; intros a; cbn [fold_left].
+  - cbv zeta. split; [lia|]. split; [constructor | left; reflexivity].
+  - specialize (IH (Z.min a x)). cbv zeta in *. destruct IH as (H1 & H2 & H3).
+    split; [lia|]. split; [constructor; [lia | exact H2]|].
+    destruct H3 as [H3 | H3]; [|right; right; exact H3].
+    destruct (Z.min_spec a x) as [(_ & E) | (_ & E)]; [left | right; left]; congruence.
+Qed.
+
+Lemma fold_max_spec l : forall a,
+  let m := fold_left Z.max l a in a <= m /\ Forall (fun x => x <= m) l /\ In m (a :: l).
+Proof.
+  induction l as [|x l IH]; intros a; cbn [fold_left].
+  - cbv zeta. split; [lia|]. split; [constructor | left; reflexivity].
+  - specialize (IH (Z.max a x)). cbv zeta in *. destruct IH as (H1 & H2 & H3).
+    split; [lia|]. split; [constructor; [lia | exact H2]|].
+    destruct H3 as [H3 | H3]; [|right; right; exact H3].
+    destruct (Z.max_spec a x) as [(_ & E) | (_ & E)]; [right; left | left]; congruence.
+Qed.
+
+Lemma Forall_map_iff {A B} (f : A -> B) (P : B -> Prop) l : Forall P (map f l) <-> Forall (fun x => P (f x)) l.
+Proof. induction l; simpl; split; intros H; inversion H; subst; constructor; tauto. Qed.
+
+Lemma clip_tiles_spec t p r : rt_wf t -> Forall (in_grid t) (p :: r) ->
+  exists t' y1 y2 x1 x2,
+    clip_tiles t (p :: r) =
+      Ok (t', ((y1, y2 + 1), (x1, x2 + 1)), map (fun yx => (fst yx - y1, snd yx - x1)) (p :: r)) /\
+    valid_block t ((y1, y2 + 1), (x1, x2 + 1)) /\
+    rt_crop t (mk_roi ((y1, y2 + 1), (x1, x2 + 1))) = Ok t' /\
+    Forall (fun yx => y1 <= fst yx <= y2 /\ x1 <= snd yx <= x2) (p :: r) /\
+    In y1 (map fst (p :: r)) /\ In y2 (map fst (p :: r)) /\
+    In x1 (map snd (p :: r)) /\ In x2 (map snd (p :: r)).
+Proof.
+  intros W G. unfold clip_tiles.
+  destruct (fold_min_spec (map fst r) (fst p)) as (A1 & A2 & A3).
+  destruct (fold_min_spec (map snd r) (snd p)) as (B1 & B2 & B3).
+  destruct (fold_max_spec (map fst r) (fst p)) as (C1 & C2 & C3).
+  destruct (fold_max_spec (map snd r) (snd p)) as (D1 & D2 & D3).
+  set (y1 := fold_left Z.min (map fst r) (fst p)) in *.
+  set (x1 := fold_left Z.min (map snd r) (snd p)) in *.
+  set (y2 := fold_left Z.max (map fst r) (fst p)) in *.
+  set (x2 := fold_left Z.max (map snd r) (snd p)) in *.
+  assert (GY : forall v, In v (map fst (p :: r)) -> 0 <= v < fst (rt_shape t)).
+  { intros v Hv. apply in_map_iff in Hv. destruct Hv as (q & <- & Hq).
+    rewrite Forall_forall in G. apply (G q Hq). }
+  assert (GX : forall v, In v (map snd (p :: r)) -> 0 <= v < snd (rt_shape t)).
+  { intros v Hv. apply in_map_iff in Hv. destruct Hv as (q & <- & Hq).
+    rewrite Forall_forall in G. apply (G q Hq). }
+  change (fst p :: map fst r) with (map fst (p :: r)) in A3, C3.
+  change (snd p :: map snd r) with (map snd (p :: r)) in B3, D3.
+  pose proof (GY _ A3). pose proof (GY _ C3). pose proof (GX _ B3). pose proof (GX _ D3).
+  assert (V : valid_block t ((y1, y2 + 1), (x1, x2 + 1))) by (unfold valid_block; cbn [fst snd]; lia).
+  destruct (rt_crop_spec t _ W V) as (t' & Et & _).
+  rewrite Et. cbn [bind]. exists t', y1, y2, x1, x2.
+  split; [reflexivity|]. split; [exact V|]. split; [exact Et|]. split; [|auto].
+  constructor; [lia|]. rewrite Forall_map_iff in A2, B2, C2, D2.
+  rewrite Forall_forall in *. intros q Hq.
+  specialize (A2 q Hq). specialize (B2 q Hq). specialize (C2 q Hq). specialize (D2 q Hq). lia.
+Qed.
+
+(** * GeoboxTiles *)
+Definition window_of (box : gbox) (r : (Z * Z) * (Z * Z)) : gbox :=
+  {| g_oy := g_oy box + fst (fst r); g_ox := g_ox box + fst (snd r);
+     g_ny := snd (fst r) - fst (fst r); g_nx := snd (snd r) - fst (snd r) |}.
+
+Lemma gbox_crop_mk g r : 0 <= fst (fst r) -> 0 <= snd (fst r) -> 0 <= fst (snd r) -> 0 <= snd (snd r) ->
+  gbox_crop g (mk_roi r) = window_of g r.
+Proof.
+  destruct r as ((a, b), (c, d)). cbn [fst snd]. intros. unfold gbox_crop, mk_roi. cbn [fst snd].
+  rewrite !norm_ss_mk by assumption. reflexivity.
+Qed.
+
+Lemma gbt_getitem_is_crop g idx :
+  gbt_getitem g idx =
+    match rt_getitem (gb_tiles g) idx with
+    | Ok r => Ok (gbox_crop (gb_box g) (mk_roi r))
+    | Err e => Err e
+    end.
+Proof. unfold gbt_getitem. destruct (rt_getitem _ _); reflexivity. Qed.
+
+Lemma tile_region_nonneg t rc : rt_wf t -> in_grid t rc ->
+  let r := tile_region t rc in
+  0 <= fst (fst r) /\ 0 <= snd (fst r) /\ 0 <= fst (snd r) /\ 0 <= snd (snd r).
+Proof. intros W G. pose proof (rt_region_inside t rc W G) as H. cbv zeta in *. lia. Qed.
+
+Lemma in_range_grid S i : 0 <= i < S -> in_range S i = true /\ wrap_idx S i = i.
+Proof.
+  intros H. unfold in_range, wrap_idx.
+  destruct (Z.leb_spec (- S) i); destruct (Z.ltb_spec i S); destruct (Z.ltb_spec i 0); try lia; auto.
+Qed.
+
+Lemma rt_index_grid t rc : rt_wf t -> in_grid t rc ->
+  rt_getitem t (int_idx rc) = Ok (tile_region t rc).
+Proof.
+  intros W (G1 & G2). destruct rc as (r, c). rewrite rt_index by assumption. cbv zeta. cbn [fst snd] in *.
+  destruct (in_range_grid _ _ G1) as (-> & ->). destruct (in_range_grid _ _ G2) as (-> & ->). reflexivity.
+Qed.
+
+Lemma gbt_tile g rc : rt_wf (gb_tiles g) -> in_grid (gb_tiles g) rc ->
+  gbt_getitem g (int_idx rc) = Ok (window_of (gb_box g) (tile_region (gb_tiles g) rc)).
+Proof.
+  intros W G. unfold gbt_getitem. rewrite rt_index_grid by assumption. cbn [bind].
+  pose proof (tile_region_nonneg _ rc W G) as N. cbv zeta in N.
+  rewrite gbox_crop_mk by tauto. reflexivity.
+Qed.
+
+Lemma gbt_tile_err g r c : rt_wf (gb_tiles g) ->
+  in_range (fst (rt_shape (gb_tiles g))) r && in_range (snd (rt_shape (gb_tiles g))) c = false ->
+  gbt_getitem g (int_idx (r, c)) = Err EIndex.
+Proof.
+  intros W H. unfold gbt_getitem. rewrite rt_index by assumption. cbv zeta. rewrite H. reflexivity.
+Qed.
+
+Lemma block_region_nonneg t blk : rt_wf t -> valid_block t blk ->
+  let r := block_region t blk in
+  0 <= fst (fst r) /\ 0 <= snd (fst r) /\ 0 <= fst (snd r) /\ 0 <= snd (snd r).
+Proof.
+  intros (Wy & Wx) V. unfold valid_block in V. rewrite rt_shape_axes in V. cbn [fst snd] in V.
+  cbv zeta. unfold block_region, By, Bx. cbn [fst snd].
+  pose proof (ax_B_le_N _ (fst (fst blk)) Wy ltac:(lia)). pose proof (ax_B_le_N _ (snd (fst blk)) Wy ltac:(lia)).
+  pose proof (ax_B_le_N _ (fst (snd blk)) Wx ltac:(lia)). pose proof (ax_B_le_N _ (snd (snd blk)) Wx ltac:(lia)).
+  lia.
+Qed.
+
+Lemma gbt_crop_spec g blk : rt_wf (gb_tiles g) -> valid_block (gb_tiles g) blk ->
+  exists g', gbt_crop g (mk_roi blk) = Ok g' /\
+             gb_box g' = window_of (gb_box g) (block_region (gb_tiles g) blk) /\
+             rt_crop (gb_tiles g) (mk_roi blk) = Ok (gb_tiles g') /\ rt_wf (gb_tiles g').
+Proof.
+  intros W V. unfold gbt_crop. rewrite rt_block by assumption. cbn [bind].
+  destruct (rt_crop_spec _ blk W V) as (t' & Et & Wt & _). rewrite Et. cbn [bind].
+  eexists; split; [reflexivity|]. cbn [gb_box gb_tiles].
+  pose proof (block_region_nonneg _ blk W V) as N. cbv zeta in N.
+  rewrite gbox_crop_mk by tauto. auto.
+Qed.
+
+(** a tile of the cropped grid is the same pixel window as the tile of the parent grid *)
+Lemma gbt_crop_tiles g blk g' i j : rt_wf (gb_tiles g) -> valid_block (gb_tiles g) blk ->
+  gbt_crop g (mk_roi blk) = Ok g' -> in_grid (gb_tiles g') (i, j) ->
+  gbt_getitem g' (int_idx (i, j)) = gbt_getitem g (int_idx (fst (fst blk) + i, fst (snd blk) + j)).
+Proof.
+  intros W V E G. destruct (gbt_crop_spec g blk W V) as (g2 & E2 & Bx2 & Ct & Wt).
+  rewrite E in E2. inversion E2; subst g2. clear E2.
+  destruct (rt_crop_tiles _ blk _ i j W V Ct G) as (G' & R). cbv zeta in R.
+  rewrite (gbt_tile g' (i, j)) by assumption. rewrite (gbt_tile g _ W G').
+  rewrite R, Bx2. unfold window_of, shift_roi, block_region. cbn [fst snd g_oy g_ox g_ny g_nx].
+  f_equal. f_equal; lia.
+Qed.
+
+Lemma gbt_clip_spec g p r : rt_wf (gb_tiles g) -> Forall (in_grid (gb_tiles g)) (p :: r) ->
+  exists g' y1 y2 x1 x2,
+    gbt_clip g (p :: r) = Ok (g', map (fun yx => (fst yx - y1, snd yx - x1)) (p :: r)) /\
+    valid_block (gb_tiles g) ((y1, y2 + 1), (x1, x2 + 1)) /\
+    gbt_crop g (mk_roi ((y1, y2 + 1), (x1, x2 + 1))) = Ok g' /\
+    Forall (fun yx => y1 <= fst yx <= y2 /\ x1 <= snd yx <= x2) (p :: r).
+Proof.
+  intros W G. destruct (clip_tiles_spec _ p r W G) as (t' & y1 & y2 & x1 & x2 & Ec & V & Ecrop & F & _).
+  unfold gbt_clip. rewrite Ec. cbn [bind]. unfold gbt_getitem. rewrite rt_block by assumption. cbn [bind].
+  exists {| gb_box := gbox_crop (gb_box g) (mk_roi (block_region (gb_tiles g) ((y1, y2 + 1), (x1, x2 + 1))));
+            gb_tiles := t' |}, y1, y2, x1, x2.
+  split; [reflexivity|]. split; [exact V|]. split; [|exact F].
+  unfold gbt_crop. rewrite rt_block by assumption. cbn [bind]. rewrite Ecrop. reflexivity.
+Qed.
